@@ -240,7 +240,7 @@ impl<'a> Gen<'a> {
     fn act_open(&mut self, p: usize) {
         let v = self.fresh("h");
         let n = self.next_var;
-        let fail = self.r.chance(1, 16);
+        let fail = self.r.chance(1, 30);
         // accept needs a listener variable
         let lis: Vec<HVar> = self.procs[p].handles.iter().filter(|h| h.rk == RK::Lis).cloned().collect();
         let choice = self.r.usize(if lis.is_empty() { 9 } else { 11 });
@@ -282,10 +282,19 @@ impl<'a> Gen<'a> {
         }
     }
 
+    /// one handle variable of `p`: usually one the plan says `p` owns, sometimes a stale one
+    fn pick_for_use(&mut self, p: usize) -> Vec<HVar> {
+        let owned: Vec<HVar> = self.procs[p].handles.iter().filter(|h| self.plan_owns(p, h)).cloned().collect();
+        if !owned.is_empty() && !self.r.chance(1, 6) {
+            return vec![owned[self.r.usize(owned.len())].clone()];
+        }
+        self.pick_handles(p, 1)
+    }
+
     fn act_use(&mut self, p: usize) {
-        let hs = self.pick_handles(p, 1);
+        let hs = self.pick_for_use(p);
         let Some(h) = hs.first().cloned() else { return };
-        let bad_world = self.r.chance(1, 20);
+        let bad_world = self.r.chance(1, 30);
         let len = if bad_world { 13 } else { 5 };
         let data = if bad_world { "\"abcdefghijklm\" .0" } else { "\"abc\" .0" };
         let mut world_matters = true;
@@ -329,7 +338,7 @@ impl<'a> Gen<'a> {
     }
 
     fn act_close(&mut self, p: usize) {
-        let hs = self.pick_handles(p, 1);
+        let hs = self.pick_for_use(p);
         let Some(h) = hs.first().cloned() else { return };
         let b = match h.rk {
             RK::File => "__file_close__",
@@ -471,12 +480,21 @@ impl<'a> Gen<'a> {
     }
 
     fn act_await(&mut self, p: usize) {
-        let cands: Vec<(String, usize)> =
-            self.procs[p].pids.iter().filter(|(n, q)| n.starts_with('c') && self.procs[*q].finished && *q != p && *q != 0).cloned().collect();
+        let cands: Vec<(String, usize)> = self.procs[p]
+            .pids
+            .iter()
+            .filter(|(n, q)| n.starts_with('c') && *q != p && *q != 0 && !self.is_ancestor(*q, p))
+            .cloned()
+            .collect();
         if cands.is_empty() {
             return;
         }
         let (qn, q) = cands[self.r.usize(cands.len())].clone();
+        if !self.procs[q].finished {
+            // awaiting a process that is still running: its script ends here
+            self.features.push("await:running-process");
+            self.act_finish(q);
+        }
         self.text(p, format!("!{qn}"));
         self.features.push(if self.procs[q].failed { "await:failed-process" } else { "await:completed-process" });
         // cleanup: everything the plan says q owns is closed
@@ -488,6 +506,16 @@ impl<'a> Gen<'a> {
         if self.procs[q].failed {
             self.die(p);
         }
+    }
+
+    fn is_ancestor(&self, a: usize, mut p: usize) -> bool {
+        while let Some(pp) = self.procs[p].parent {
+            if pp == a {
+                return true;
+            }
+            p = pp;
+        }
+        false
     }
 
     fn render(&self, p: usize) -> String {
@@ -582,6 +610,5 @@ pub fn generate(r: &mut Rng, max_procs: usize, n_actions: usize) -> Scenario {
     if g.procs[0].alive {
         g.text(0, "Ok".into());
     }
-    let _ = g.procs.iter().map(|p| p.parent).count();
     Scenario { source: g.render(0), n_procs: g.procs.len(), features: g.features }
 }
